@@ -534,14 +534,15 @@ def _on_alarm(signum, frame):
 
 
 def with_timeout(seconds, fn, *args, **kw):
-    """fn(*args) in the calling (main) thread, raising Hang after `seconds`."""
-    old = _signal.signal(_signal.SIGALRM, _on_alarm)
-    _signal.setitimer(_signal.ITIMER_REAL, seconds)
+    """fn(*args) in the calling (main) thread, raising Hang after `seconds` of CPU time of this
+    process (not wall time: on a loaded machine a stalled worker is not a hanging library)."""
+    old = _signal.signal(_signal.SIGPROF, _on_alarm)
+    _signal.setitimer(_signal.ITIMER_PROF, seconds)
     try:
         return fn(*args, **kw)
     finally:
-        _signal.setitimer(_signal.ITIMER_REAL, 0)
-        _signal.signal(_signal.SIGALRM, old)
+        _signal.setitimer(_signal.ITIMER_PROF, 0)
+        _signal.signal(_signal.SIGPROF, old)
 
 
 # ---------------------------------------------------------------- streaming replay
